@@ -690,8 +690,42 @@ func stopDuringTeardown(r *monitor.Run) {
 	}
 }
 
+// refusedRequestV3: a request the broker refuses to carry out is still answered in bounded time - for a v3.1.1
+// client, which cannot be sent a DISCONNECT, by closing the connection (here: a retained PUBLISH while
+// retain_available is false).
+func refusedRequestV3(r *monitor.Run) {
+	b, err := broker.Start(broker.Options{Cfg: func(c *config.Config) { c.MQTT.RetainAvailable = false }})
+	if err != nil {
+		r.Inconclusive(err.Error())
+		return
+	}
+	defer b.Stop(10 * time.Second)
+	for _, v := range []mqttx.Version{mqttx.V311, mqttx.V5} {
+		c, err := wire.Dial("refused", b.Addr, v)
+		if err != nil {
+			r.Inconclusive(err.Error())
+			return
+		}
+		if _, err := c.Connect(&mqttx.Packet{ClientID: fmt.Sprintf("refused-%d", v), CleanStart: true}, reqTimeout); err != nil {
+			r.Inconclusive(err.Error())
+			c.Close()
+			return
+		}
+		_ = c.Send(&mqttx.Packet{Type: mqttx.PUBLISH, Topic: "a/b", QoS: 1, PacketID: 5, Retain: true, Payload: []byte("r")})
+		r.Eval(1)
+		r.Count("refused_requests", 1)
+		if !c.WaitEOF(10 * time.Second) {
+			r.Violation(fmt.Sprintf("request.unanswered:refused_publish_connection_left_open:v=%d", v), "a retained PUBLISH (QoS 1) sent while retain_available is false got neither an acknowledgement nor a closed connection within 10 s", nil)
+		} else {
+			r.Nontrivial(fmt.Sprintf("refused-request|%d", v))
+		}
+		c.Close()
+	}
+}
+
 // Run is the entry point.
 func Run(r *monitor.Run) {
+	refusedRequestV3(r)
 	stopDuringTeardown(r)
 	rng := r.Rand("chaos")
 	n := r.Pick(4, 40)
